@@ -63,6 +63,7 @@ def run(check, scenarios, props, depth=None, devbound=None, seconds=None, tag="n
     agg["outcome_kinds"] = set()
     agg["samples"] = []
     agg["violations"] = []
+    agg["incomplete_scenario_names"] = []
     for (rc, val, err), cmd in zip(res, cmds):
         crash = [ln for ln in err.splitlines() if ln.startswith("NXCRASH ")]
         for ln in crash[:4]:
@@ -95,6 +96,7 @@ def run(check, scenarios, props, depth=None, devbound=None, seconds=None, tag="n
         agg["outcome_kinds"] |= set(val.get("outcome_kinds", []))
         agg["samples"] += val.get("samples", [])[:1]
         agg["violations"] += val.get("violations", [])
+        agg["incomplete_scenario_names"] += val.get("incomplete_scenario_names", [])
     try:
         os.unlink(path)
     except OSError:
